@@ -42,10 +42,11 @@ KINDS = ['open', 'open-ws', 'poll', 'post', 'upgrade', 'options']
 VARIANTS = ['absent', 'empty', 'exact', 'prefix', 'suffix', 'label', 'case',
             'port', 'slash', 'path', 'blank', 'null', 'foreign', 'forwarded',
             'second', 'swapscheme', 'xf-second-host', 'xf-second-proto']
-SRV = ['T', 'A', 'H']      # H: the asyncio server behind the real aiohttp adapter
+SRV = ['T', 'A', 'H', 'N']  # H / N: the asyncio server behind the real aiohttp / tornado adapter
 PRED_OK = 'http://pred.test'
 HYBRID_KEY = {'A': 'asgi-xfp-host-hybrid-origin',
-              'H': 'aiohttp-xfp-host-hybrid-origin', 'T': 'hybrid-origin'}
+              'H': 'aiohttp-xfp-host-hybrid-origin', 'T': 'hybrid-origin',
+              'N': 'tornado-xfp-host-hybrid-origin'}
 
 
 def cfg_value(name):
@@ -232,6 +233,35 @@ class SpyDict(dict):
         return super().keys()
 
 
+def was_refused(rec, t, ws, srv, desc, case):
+    """Whether the request was refused the way the statement says (400; on
+    an ASGI websocket scope: closed without accept). On the tornado engine a
+    refused WebSocket request never carries 400 - tornado's own origin check
+    (installed by the adapter for string / list configurations) answers 403,
+    and what the package itself refuses had been answered 101 by tornado and
+    is closed instead: that is known finding K13, reported here, and the
+    request counts as refused so that the rest of the oracle (no session, no
+    handler, no CORS grant) is still applied to it."""
+    if not t.done:
+        return False
+    late = getattr(t, 'late_refusal', False)
+    if t.code == 400 and not late:
+        return True
+    if ws is not None and srv == 'A' and not ws.accepted and ws.server_closed:
+        return True
+    if srv == 'N' and ws is not None and not ws.accepted and (
+            (late and t.code == 400) or t.code == 403):
+        rec.count('late_refusals_on_tornado')
+        rec.viol('tornado-websocket-refusal-status', 'WebSocket request with '
+                 'a disallowed Origin answered %r on the wire (the package '
+                 'meant %r), connection closed=%r: %s' % (
+                     getattr(t, 'wire_status', t.status), t.status,
+                     ws.server_closed, desc), case)
+        return True
+    return False
+
+
+
 def run_cell(rec, cell):
     icfg, icred, ivar, ienv, ikind, isrv = cell
     cfgname, cred = CFG[icfg], bool(icred)
@@ -256,7 +286,7 @@ def run_cell(rec, cell):
             origin = None
     if origin is None and variant != 'absent':
         return
-    if srv == 'H' and (host is None or (origin is not None and (
+    if srv in scen.HTTPB and (host is None or (origin is not None and (
             origin != origin.strip() or not origin.isascii()))):
         # an HTTP/1.1 request without Host never reaches the server, blanks
         # around a header value are not part of the value on the wire, and
@@ -313,7 +343,7 @@ def run_cell(rec, cell):
         # mechanism of known finding K6: the asyncio drivers report
         # X-Forwarded-Proto as wsgi.url_scheme, so with both forwarded headers
         # present the hybrid <X-Forwarded-Proto>://<Host> is let through
-        hybrid = (srv in ('A', 'H') and cfgname == 'none' and
+        hybrid = (srv in ('A', 'H', 'N') and cfgname == 'none' and
                   host is not None and
                   'X-Forwarded-Proto' in xh and 'X-Forwarded-Host' in xh and
                   origin == '%s://%s' % (xh['X-Forwarded-Proto'], host))
@@ -331,9 +361,7 @@ def run_cell(rec, cell):
             rec.key('cell/' + ','.join(map(str, cell)))
         if checked and not ok:
             rec.count('must_refuse')
-            refused = t.done and (t.code == 400 or (
-                ws is not None and srv == 'A' and not ws.accepted and
-                ws.server_closed))
+            refused = was_refused(rec, t, ws, srv, desc, case)
             if not refused:
                 rec.viol(HYBRID_KEY[srv] if hybrid else
                          'asgi-undecodable-origin-dropped' if undecodable else
@@ -378,8 +406,10 @@ def run_cell(rec, cell):
                 if acac and not cred:
                     rec.viol('acac-when-disabled', 'Allow-Credentials emitted '
                              'with cors_credentials=False: %s' % desc, case)
-        if cfgname == 'empty' and origin and t.done and t.code == 400 and \
-                kind in ('open', 'post', 'poll'):
+        if cfgname == 'empty' and origin and t.done and (
+                (t.code == 400 and kind in ('open', 'post', 'poll')) or
+                (ws is not None and not ws.accepted and
+                 t.code in (400, 403))):
             rec.viol('origin-check-when-disabled', 'request refused although '
                      'origin checking is disabled: %s' % desc, case)
         if rec.evaluations % 1201 == 1:
@@ -422,9 +452,7 @@ def run_dup_origin(rec, case):
             t = sim.post(h, '4hello', headers=hd)
         sim.quiesce()
         rec.count('must_refuse')
-        refused = t.done and (t.code == 400 or (
-            ws is not None and srv == 'A' and not ws.accepted and
-            ws.server_closed))
+        refused = was_refused(rec, t, ws, srv, desc, case)
         if not refused:
             rec.viol('disallowed-origin-admitted-duplicate', 'status=%r '
                      'accepted=%r: %s' % (t.status, ws.accepted if ws else
@@ -507,9 +535,13 @@ def run_origin_sequence(rec, case):
             log.append((kind, host, xfh, origin,
                         'predicate raises' if state['boom'] else ok,
                         t.status))
-            refused = t.done and (t.code == 400 or (
-                ws is not None and srv == 'A' and not ws.accepted and
-                ws.server_closed))
+            desc = ('request #%d (%s, Host %s, X-Forwarded-Host %s, Origin %s) '
+                    'of the sequence %r '
+                    'cors_allowed_origins=%s server=%s' % (
+                        step + 1, kind, host, xfh, origin, log, cfgname, srv))
+            refused = was_refused(rec, t, ws, srv, desc, case) if not ok \
+                else (t.done and (t.code in (400, 403) or (
+                    ws is not None and not ws.accepted and ws.server_closed)))
             if state['boom'] and t.done and (
                     t.exc is not None or t.code == 500 or
                     getattr(t, 'no_response', False)):
@@ -549,7 +581,7 @@ def plan(tier, seed):
     rng = gen.mkrng('c13', seed)
     allc = list(itertools.product(range(len(CFG)), range(2),
                                   range(len(VARIANTS)), range(len(ENV)),
-                                  range(len(KINDS)), range(3)))
+                                  range(len(KINDS)), range(len(SRV))))
     if tier == 'thorough':
         chosen = allc
     else:
@@ -559,7 +591,7 @@ def plan(tier, seed):
         chosen.append((rng.randrange(len(CFG)), rng.randrange(2),
                        'fuzz:%d:%d' % (seed * 1000003 + k, rng.randrange(4)),
                        rng.randrange(len(ENV)), rng.randrange(len(KINDS)),
-                       rng.randrange(3)))
+                       rng.randrange(len(SRV))))
     rng.shuffle(chosen)
     n = 16
     shards = [{'cells': chosen[i::n], 'all': tier == 'thorough'}
